@@ -206,6 +206,69 @@ def run(ctx):
     ctx.trace(len(terms) - len(bad))
 
     call_sites(ctx)
+    dirnode_grid_cases(ctx)
+
+
+def _netstrings(data):
+    out, pos = [], 0
+    while pos < len(data):
+        colon = data.index(b":", pos)
+        n = int(data[pos:colon])
+        out.append(data[colon + 1:colon + 1 + n])
+        assert data[colon + 1 + n:colon + 2 + n] == b","
+        pos = colon + 2 + n
+    return out
+
+
+def dirnode_grid_cases(ctx):
+    """Directories as they are actually STORED: every child write-cap field of a directory written through the real
+    DirectoryNode code paths (children given as a plain dict, as the listing of ANOTHER directory, to create_dirnode and
+    to create_subdirectory, then edited) must be salt ++ AES-CTR(key(salt, THIS directory's writekey), rwcap) ++ HMAC."""
+    try:
+        from core import grid as G
+    except Exception as e:
+        ctx.note("dirnode grid part skipped: %s" % e)
+        return
+    from allmydata.crypto import aes
+    from allmydata.util import hashutil as H
+    for i in range(ctx.n(1, 4)):
+        r = ctx.rng("dirgrid", i)
+        seed = r.getrandbits(30)
+        with G.Grid(num_clients=1, num_servers=3, k=1, n=2, happy=1, seed=seed, timeout=120) as g:
+            c = g.client(0)
+            fmt = r.choice(["sdmf", "mdmf"])
+            f1 = g.run(g.create_mutable(b"one", version=fmt))
+            sub = g.run(c.create_dirnode())
+            a = g.run(c.create_dirnode())
+            g.run(a.set_node(u"file", f1))
+            g.run(a.set_node(u"sub", sub))
+            g.run(a.set_uri(u"lit", b"URI:LIT:krugkidfnzsa", b"URI:LIT:krugkidfnzsa"))
+            listing = g.run(a.list())                                   # what DirectoryNode.list() hands out
+            plain = dict((nm, (ch, dict(md))) for nm, (ch, md) in listing.items())
+            made = {"a": a,
+                    "create_dirnode(listing of a)": g.run(c.create_dirnode(initial_children=listing)),
+                    "create_dirnode(plain dict)": g.run(c.create_dirnode(initial_children=plain)),
+                    "a.create_subdirectory(listing of a)": g.run(a.create_subdirectory(u"copy", initial_children=listing))}
+            g.run(made["create_dirnode(listing of a)"].set_node(u"later", f1))
+            for how, d in sorted(made.items()):
+                raw = g.run(d._node.download_best_version())
+                wk = d._node.get_writekey()
+                children = g.run(d.list())
+                for entry in _netstrings(raw):
+                    name, ro_uri, rwcapdata, _md = _netstrings(entry)
+                    if not rwcapdata:
+                        continue
+                    ctx.case(("dirgrid", seed, how, name), kind="stored-dirnode-rwcap")
+                    salt, ct, mac = rwcapdata[:16], rwcapdata[16:-32], rwcapdata[-32:]
+                    ckey = _pair(b"allmydata_mutable_writekey_and_salt_to_dirnode_child_capkey_v1", salt, wk, 16)
+                    plain_cap = aes.decrypt_data(aes.create_decryptor(ckey), ct)
+                    want_cap = children[name.decode("utf-8")][0].get_write_uri() or b""      # read-only children: the empty string is encrypted
+                    want_salt = _tag(b"allmydata_dirnode_child_rwcap_to_salt_v1", want_cap, 16)
+                    if plain_cap != want_cap or salt != want_salt or mac != H.hmac(ckey, salt + ct):
+                        ctx.oracle_fail("call-site:stored-dirnode-child-writecap", "directory made by %s stores child %r with a write-cap field that is not "
+                                        "salt ++ AES(key(salt, this directory's writekey), rwcap) ++ HMAC as specified (decrypts to %r, the child's write cap "
+                                        "is %r)" % (how, name.decode("utf-8"), plain_cap[:40], (want_cap or b"")[:40]),
+                                        case={"seed": seed, "made_by": how, "child": name.decode("utf-8"), "format": fmt})
 
 
 def call_sites(ctx):
